@@ -2,7 +2,7 @@
 # usage: tools/try_mutation.sh <patch file> <Cxx> [tier]   -- applies a patch to /repo, runs the check, reverts
 P=$(readlink -f "$1"); PROP=$2; TIER=${3:-quick}
 cd /repo || exit 2
-git apply "$P" || { echo "patch does not apply"; exit 2; }
+git apply ${APPLY_OPTS:-} "$P" || { echo "patch does not apply"; exit 2; }
 cp /verif/evidence/$PROP.json /tmp/evidence-$PROP.keep 2>/dev/null
 cd /verif && ./check "$PROP" --tier "$TIER" > /tmp/mut.out 2>&1; RC=$?
 # the evidence file must describe the unchanged tree: put it back
